@@ -37,7 +37,6 @@ from insights.formats._json import JsonFormat, JsonFormatterAdapter
 from insights.formats._yaml import YamlFormat, YamlFormatterAdapter
 
 KNOWN_SKIP_STUB = "skip-stub-anonymous"
-KNOWN_RERUN = "rerun-reobserves"
 LIMIT_KEY = "max_detail_length"
 
 
@@ -641,13 +640,13 @@ def expected_details(cls, key, kw, limit):
     return full
 
 
-def oracle_ruleset(rs, results, skips, exc_ids, metadata, mdkeys, b, limit, order, participants=None, refired={}):
+def oracle_ruleset(rs, results, skips, exc_ids, metadata, mdkeys, b, limit, order, participants=None):
     """results: {type: [entry dict]}, skips: [dict], exc_ids: set of rule ids with a recorded exception;
-    participants: ids of the rules that took part in an evaluation (default: all); refired: {id: how often a
-    later evaluation of the same evaluator met the rule again} (input predicate of the known finding rerun-reobserves).
-    Multiplicities are counted (lists, not sets).  Returns a list of (description, finding-or-None)."""
+    participants: ids of the rules that took part in an evaluation (default: all); order: the rules in the order
+    they were first evaluated (metadata: the last writer wins).  Multiplicities are counted (lists, not sets): a
+    rule that a later evaluation of the same evaluator meets again must still be listed once.
+    Returns a list of (description, finding-or-None)."""
     out = []
-    md_refired = False
     case = rs.case
     listed = {}
     for t, es in results.items():
@@ -685,13 +684,6 @@ def oracle_ruleset(rs, results, skips, exc_ids, metadata, mdkeys, b, limit, orde
             L, details = skip_render_len(rs, r, want[1], want[2])
             if L > limit:
                 finding = KNOWN_SKIP_STUB      # predicate on the input: the skip response's own rendering exceeds the limit
-        if r["id"] in refired:
-            if merged:
-                md_refired = True
-            if n_exc == 0 and total == exp_total * (1 + refired[r["id"]]):
-                # predicate on the input: later evaluations met this stored rule again, and it is listed exactly once
-                # more per such meeting — any other multiplicity is not this finding
-                finding = KNOWN_RERUN
         if total != exp_total:
             out.append(("rule %s (%s) is accounted %d times (results %d, skips %d, exception %d, merged %d), expected %d"
                         % (name, want[0], total, n_res, n_skip, n_exc, merged, exp_total), finding))
@@ -744,7 +736,7 @@ def oracle_ruleset(rs, results, skips, exc_ids, metadata, mdkeys, b, limit, orde
     if anonymous:
         # a skip entry that names no rule: attributed above as a missing skip entry (known finding) — nothing to add
         pass
-    mdf = KNOWN_RERUN if md_refired else None      # a re-observed metadata response is merged again, out of order
+    mdf = None
     for k, v in md_expect.items():
         if k not in metadata or metadata[k] != v:
             out.append(("metadata %r: expected %r (last writer in run order), got %r" % (k, v, metadata.get(k)), mdf))
@@ -1140,14 +1132,10 @@ def run_history(rs, ev_name, kind):
     impl = ["ok"] * (len(lines) - 1) + [st]
     kinds = ["decl"] * (len(lines) - 1) + ["state:history"]
     participants = set()
-    refired = {}
     order = []
     for keys, fired in runs:
-        for i in fired:
-            if i in participants:
-                refired[i] = refired.get(i, 0) + 1
         participants |= keys
-        order += [i for i in fired if i not in order]
+        order += [i for i in fired if i in keys and i not in order]      # first evaluation of each rule
     exc_ids = set(int(i) for i in st["excs"])
     views = [("get_response", resp)]
     if ev_name in ("JsonFormat", "YamlFormat"):
@@ -1165,7 +1153,7 @@ def run_history(rs, ev_name, kind):
     for vname, v in views:
         for desc, finding in oracle_ruleset(rs, results_from_response(v), [dict(x) for x in v.get("skips", [])], exc_ids,
                                             dict(v.get("system", {}).get("metadata", {})), dict(e.metadata_keys), b, limit,
-                                            order, participants=participants, refired=refired):
+                                            order, participants=participants):
             fails.append(("%s history %s, %s: %s" % (ev_name, kind, vname, desc), finding))
     return lines, impl, kinds, fails
 
@@ -1199,16 +1187,6 @@ RERUN_WITNESS = {
                         "enabled": True, "tags": None, "links": None,
                         "act": {"k": "ret", "cls": "make_fail", "key": "K1", "kw": []}}], "fmts": []},
 }
-
-
-def witness_rerun():
-    """e.process(graph) twice on the same evaluator: the rule of the first evaluation is listed twice"""
-    rs = RuleSet(RERUN_WITNESS["case"])
-    b = rs.broker()
-    e = SingleEvaluator(b, stream=io.StringIO())
-    e.process(rs.graph)
-    resp = e.process(rs.graph)
-    return len(resp["reports"]) == 2, [x["component"] for x in resp["reports"]]
 
 
 # --------------------------------------------------------------------------- known finding witness
@@ -1333,11 +1311,6 @@ def run(chk):
     chk.witnesses.append({"id": KNOWN_SKIP_STUB, "skips": skips, "reproduces": ok})
     if ok:
         chk.finding_reproduced(KNOWN_SKIP_STUB)
-    ok, comps = witness_rerun()
-    chk.witnesses.append({"id": KNOWN_RERUN, "reports after e.process(g); e.process(g)": comps, "reproduces": ok})
-    if ok:
-        chk.finding_reproduced(KNOWN_RERUN)
-
     # ---- regression (fixed 4daf5f3): the YAML adapter path prints and honours -S
     problems, info = regression_yaml_adapter()
     chk.witnesses.append({"fixed": "4daf5f3 yaml adapter arguments", "observed": info, "passes": not problems})
@@ -1440,6 +1413,18 @@ def run(chk):
         for fn in sorted(os.listdir(corpus_dir)):
             if fn.endswith(".json"):
                 corpus.append(json.load(open(os.path.join(corpus_dir, fn)))["case"])
+    # regression corpus first: histories (fixed 35ad880: e.process(g); e.process(g) lists the rule once), then rule sets
+    for h in [c for c in corpus if c.get("kind") == "history"]:
+        rs = RuleSet(h["case"])
+        lines, impl, kinds, fails = run_history(rs, h["evaluator"], h["history"])
+        segments.append((h, rs, len(all_lines), lines, impl, kinds))
+        all_lines.extend(lines)
+        for desc, finding in fails:
+            chk.failure(desc, h, finding=finding)
+        chk.count("history:" + h["history"])
+        chk.case(("history-corpus", J(h)), True)
+    chk.witnesses.append({"fixed": "35ad880 rerun-reobserves", "corpus": "corpus/C12/rerun-reobserves.json",
+                          "passes": not any(f["case"].get("kind") == "history" for f in chk.failures)})
     corpus = [c for c in corpus if "rules" in c] + [nonresponse_case()]
     for idx in range(n_sets + len(corpus)):
         case = corpus[idx] if idx < len(corpus) else gen_case(rng, quick)
@@ -1511,8 +1496,9 @@ def run(chk):
     if hs:
         chk.sample({"history": {k: v for k, v in hs[0][0].items() if k != "case"}, "rules": len(hs[0][0]["case"]["rules"]),
                     "protocol": [l for l in hs[0][3] if l.startswith("h")]}, limit=8)
-    if segments:
-        case, rs, off, lines, impl, kinds = segments[min(3, len(segments) - 1)]
+    sets = [x for x in segments if x[0].get("kind") != "history"]
+    if sets:
+        case, rs, off, lines, impl, kinds = sets[min(3, len(sets) - 1)]
         chk.sample({"rule set": case, "SingleEvaluator state (canonical, strings hex)": impl[kinds.index("state:SingleEvaluator")]}, limit=8)
 
 
